@@ -96,7 +96,7 @@ def dropped():
 class Concretisation(object):
     """token -> concrete value; distinct tokens get values that are pairwise different (by same_value)."""
 
-    def __init__(self, seed, prefer_mutable=False, confusable=()):
+    def __init__(self, seed, prefer_mutable=False, confusable=(), prefer_shallow_immutable=False):
         self.rnd = random.Random(seed)
         self.map = {}
         if confusable:   # (tokenA, tokenB): concretise as a type-confusable pair
@@ -105,7 +105,9 @@ class Concretisation(object):
                 self.map[confusable[0]], self.map[confusable[1]] = a, b
         self.order = list(pool())
         self.rnd.shuffle(self.order)
-        if prefer_mutable:  # identity / aliasing checks are only meaningful on non-interned, mutable values
+        if prefer_shallow_immutable:  # immutable containers (tuples) that hold mutable objects: shallow checks miss them
+            self.order.sort(key=lambda v: 0 if isinstance(v, tuple) and _deep_mutable(v) else 1)
+        elif prefer_mutable:  # identity / aliasing checks are only meaningful on non-interned, mutable values
             self.order.sort(key=lambda v: 0 if _deep_mutable(v) else 1)
 
     def value(self, token):
